@@ -353,6 +353,7 @@ func (w *World) Sync(id string, out, rot int) bool {
 		w.fail("C19", "sync-over-capacity", "table %s holds %d players after SyncState handed it %d, capacity is %d", id, len(ps), len(newp), w.Max)
 	}
 	broken := w.R.GetTable(id) == nil
+	asked := rel
 	if rel > len(ps) {
 		w.fail("C09", "release-more-than-seated", "SyncState(%s) asks to release %d players, %d sit there", id, rel, len(ps))
 		rel = len(ps)
@@ -363,8 +364,8 @@ func (w *World) Sync(id string, out, rot int) bool {
 	}
 	if broken {
 		w.Facts["table-broken"] = true
-		if rel != len(ps) {
-			w.fail("C20", "break-hands-back-part", "table %s is told to break but to release %d of its %d players", id, rel, len(ps))
+		if asked != len(ps) {
+			w.fail("C20", "break-hands-back-part", "table %s is told to break and to release %d players, it has %d", id, asked, len(ps))
 		}
 		if len(newp) > 0 {
 			w.fail("C20", "break-receives-players", "table %s is told to break and receives %d players", id, len(newp))
